@@ -122,6 +122,14 @@ func (s *objectStore) delete(o Object) {
 	}
 }
 
+// drop forgets all the objects of a type
+func (s *objectStore) drop(of Object) {
+	s.Lock()
+	defer s.Unlock()
+
+	delete(s.m, stype(of))
+}
+
 func (s *objectStore) count(of Object) (n int) {
 	s.RLock()
 	defer s.RUnlock()
@@ -589,6 +597,17 @@ func (db *DB) Create(o Object, s Schema) (err error) {
 		s.initialize(db, o)
 
 		// the schema is existing and we don't need to build a new one
+		if err = es.isCompatibleWith(&s); err != nil {
+			return
+		}
+
+		// cache and async settings may change: objects waiting to be written
+		// are flushed and cached ones dropped so that nothing is lost or stale
+		if err = db.flushAll(o); err != nil {
+			return
+		}
+		db.cache.drop(o)
+
 		// update existing schema with changes
 		if err = es.update(&s); err != nil {
 			return
